@@ -1,7 +1,7 @@
 (* Run08.v — case runner for C08 (harness/src/c08.rs): the regexes of the model of
    numeric.rs decide each literal *)
 From Coq Require Import String.
-From LLG Require Import Base Sx Regex Numeric.
+From LLG Require Import Base Params Sx Regex Numeric.
 Open Scope string_scope.
 Open Scope N_scope.
 
@@ -37,4 +37,17 @@ Definition run_case08 (x : sx) : sx :=
         let r := normalize r in
         tagged "ok" (map (fun s => sb (re_match r (as_bytes s))) (as_list (nth_sx a 2)))
     end
+  else if is "lcm" then
+    (* allOf of two integer multipleOf: combined by Decimal::lcm, then matched by derivre *)
+    match decimal_lcm LCM_CHECKED (as_z (nth_sx a 0), 0%Z) (as_z (nth_sx a 1), 0%Z) with
+    | None => tagged "err" []
+    | Some (c, e) =>
+        if negb (multiple_of_compiles MULTIPLE_OF_GUARD c e) then tagged "err" [] else
+        tagged "ok" (map (fun z => sb (if (e =? 0)%Z then multiple_of_accepts_int c (digits_of (as_z z))
+                                        else ((as_z z * 10 ^ e) mod c =? 0)%Z)) (as_list (nth_sx a 2)))
+    end
+  else if is "multof" then
+    let c := as_z (nth_sx a 0) in
+    if negb (multiple_of_compiles MULTIPLE_OF_GUARD c 0%Z) then tagged "err" [] else
+    tagged "ok" (map (fun z => sb (multiple_of_accepts_int c (digits_of (as_z z)))) (as_list (nth_sx a 1)))
   else SL [SY (sym "unknown")].
